@@ -9,6 +9,7 @@ from interp import Interp
 from loader import load_program
 import model as M
 import sem as S
+import ghost as G
 from closure import run_loop_iteration, run_prologue
 
 sys.path.insert(0, os.path.join(os.path.dirname(os.path.abspath(__file__)), "..", "corpus"))
@@ -194,6 +195,9 @@ def lemma_step(su):
     dirty0 = dirty_exact_goals(I, su, sch, m, st, "step") if surj else []
     nodefs0 = no_pending_defs(d)
     enum0 = M.conj(inv_enum(su, st))
+    gh, hom = G.Ghost(ctx, sch), G.Hom(ctx, sch)
+    hom0 = G.pre_lit(st, gh, hom, d, su.rules)
+    hlen0 = {t: st.nelems(t) for t in sch.types}
 
     def cond(I_, g, args):
         b = ctx.fresh_bool("cond")
@@ -232,7 +236,8 @@ def lemma_step(su):
         c06.append(("step.noalloc: no definition is pending after an iteration", c.implies(cont, no_pending_defs(d))))
         goals += [(lab, c.implies(nodefs0, l)) for lab, l in c06]
     goals += enum_goals(su, st, enum0, "step: ")
-    cover = [("continue", cont), ("exit", ex), ("early", early)]
+    goals += G.post_goals(st, gh, hom, d, hlen0, hom0, "step: ", require_generated=True)
+    cover = [("continue", cont), ("exit", ex), ("early", early), ("hom: a model N and a homomorphism exist while an iteration continues", c.and2(hom0, cont))]
     return ctx, Goal("step", ctx.assumes + [M.conj(pre), -bound], goals, cover)
 
 
@@ -292,6 +297,9 @@ def lemma_prologue(su):
     surj = not has_defs(su.rules)
     snap0 = progress_snapshot(st) if surj else None
     enum0 = M.conj(inv_enum(su, st))
+    gh, hom = G.Ghost(ctx, sch), G.Hom(ctx, sch)
+    hom0 = G.pre_lit(st, gh, hom, None, su.rules)
+    hlen0 = {t: st.nelems(t) for t in sch.types}
 
     def cond(I_, g, args):
         at_cond.append((g, M.inv_unionfind(st) + M.inv_struct(st, canon=True) + M.inv_no_uprooted(st)))
@@ -308,6 +316,7 @@ def lemma_prologue(su):
     if surj:
         goals += progress_goals(st, snap0, None, "prologue")
     goals += enum_goals(su, st, enum0, "prologue: ")
+    goals += G.post_goals(st, gh, hom, None, hlen0, hom0, "prologue: ")
     if len(at_cond) != 1:
         raise Unsupported("close_until prologue evaluates the condition %d times" % len(at_cond))
     cover = [("some element was uprooted", -M.conj(M.inv_no_uprooted(M.State(sch, m))) if False else T)]
@@ -351,6 +360,37 @@ def symbolic_arg(ctx, sch, su, st, ty, tag, pre):
     raise Unsupported("public API parameter of type %s" % tn)
 
 
+def asserted_in_ghost(su, sch, st, gh, hom, name, args):
+    """literal: the ghost model N satisfies, under h, the fact that the public call `name(args)` asserts"""
+    c = V.CTX.c
+    for pfx in ("insert_", "define_", "equate_", "new_"):
+        if name.startswith(pfx):
+            kind, rel = pfx[:-1], name[len(pfx):]
+            break
+    else:
+        raise Unsupported("public mutator %s: what does it assert?" % name)
+    if kind == "new" and not args:
+        # a new element can be interpreted in N iff N has an element of that type
+        return c.orl([gh.exists(rel, v) for v in range(V.CTX.U)])
+    if kind == "new":
+        # new_<enum>(case): the constructor term is defined in N
+        case = args[0]
+        ets = enum_types(su, sch)
+        out = T
+        for vn, (g, payload) in case.alts.items():
+            R = dict(ets[rel][1])[vn]
+            out = c.and2(out, c.implies(g, G.defined_sym(gh, hom, R, list(payload))))
+        return out
+    if kind == "equate":
+        return G.same_image(hom, rel, args[0], args[1])
+    R = sch.rels[rel]
+    if kind == "insert":
+        return G.img_sym(gh, hom, R, args)
+    if kind == "define":
+        return G.defined_sym(gh, hom, R, args)
+    raise Unsupported(name)
+
+
 def lemma_api(su, name):
     """one public mutator from an arbitrary between-closes state preserves the between-closes invariant"""
     ctx, I, sch = su.fresh()
@@ -363,10 +403,14 @@ def lemma_api(su, name):
     args = []
     for i, inp in enumerate(item["sig"]["inputs"][1:]):
         args.append(symbolic_arg(ctx, sch, su, st, inp["ty"], "arg%d" % i, pre))
+    gh, hom = G.Ghost(ctx, sch), G.Hom(ctx, sch)
+    hom0 = c.and2(G.pre_lit(st, gh, hom, None, su.rules), asserted_in_ghost(su, sch, st, gh, hom, name, args))
+    hlen0 = {t: st.nelems(t) for t in sch.types}
     r = I.call_fn(item, T, args, self_val=m)
     panic, bound, compact = events_split(ctx)
     goals = [("api.%s: %s" % (name, lab), l) for lab, l in inv_api(st, su.rules)]
     goals += enum_goals(su, st, enum0, "api.%s: " % name)
+    goals += G.post_goals(st, gh, hom, None, hlen0, hom0, "api.%s: " % name)
     goals += [("api.%s.no-panic: %s" % (name, msg), -g) for msg, g in panic]
     goals += [("api.%s.compaction-bound: %s" % (name, msg), -g) for msg, g in compact]
     return ctx, Goal("api." + name, ctx.assumes + pre + [-bound], goals, [])
@@ -378,6 +422,8 @@ def lemma_new(su):
     st = M.State(sch, m)
     goals = [("new: " + lab, l) for lab, l in inv_api(st, su.rules)]
     goals += enum_goals(su, st, T, "new: ")
+    gh, hom = G.Ghost(ctx, sch), G.Hom(ctx, sch)
+    goals += [("new: " + lab, l) for lab, _, l in G.hom_items(st, gh, hom, None)]
     panic, bound, compact = events_split(ctx)
     goals += [("new.no-panic: " + msg, -g) for msg, g in panic]
     return ctx, Goal("new", ctx.assumes + [-bound], goals, [])
